@@ -18,9 +18,9 @@ import (
 
 func init() {
 	register(&Rule{ID: "R-chan-send", Floor: 4, Run: ruleChanSend,
-		Doc: "C10/C16/C17: a core reports its end to VM.Wait by sending on its signal channel. (1) Every return path of Core.Run sends exactly one value (none: Wait never removes the core and never returns; two: the second send blocks forever). (2) A send must never block forever: either the channel's capacity is >= the number of sends of a run, or every return of Wait happens only when no live core remains or after draining every live core. With an unbuffered channel and a Wait that returns on the first interrupt, every other core stays blocked in its send (goroutine leak; a later SpawnSync on the same VM finds stale state / a later cancel cannot reach them)."})
+		Doc: "C10/C16/C17: a core reports its end to VM.Wait by sending on its signal channel. (1) Every return path of Core.Run sends exactly one value (none: Wait never removes the core and never returns; two: the second send blocks forever). (2) A send must never block forever: either the channel's capacity is >= the number of sends of a run, or every return of Wait happens only when no live core remains or after draining every live core. With an unbuffered channel and a Wait that returns on the first interrupt, every other core stays blocked in its send (goroutine leak; a later SpawnSync on the same VM finds stale state / a later cancel cannot reach them). (3) The goroutines that run the sender (rules_r4rta_spawn.go): every `go` statement of the module whose function — a literal, a declared function, helpers followed — synchronously reaches a send on the signal channel must send exactly once on every non-panicking path of the goroutine body (a condition or an early return in front of Core.Run leaves a core in the live list that never signals: Wait hangs; a second run sends twice), and the core whose sender it runs must be the core registered on the same path (data flow from the registering call to the receiver of the send)."})
 	register(&Rule{ID: "R-wait", Floor: 4, Run: ruleWait,
-		Doc: "C10/C16/C17: VM.Wait's polling loop may only be left (a) by a break taken when the live-core list is empty, or (b) by a return in the branch that received a non-nil interrupt; on (b) the cancel function must have been called (so the remaining cores stop), and on every return the core-list mutex must be released (a Wait that returns holding the RLock makes the next spawnCore — which needs Lock — block forever: the VM answers later calls by hanging)."})
+		Doc: "C10/C16/C17: VM.Wait's polling loop may only be left (a) by a break taken when the live-core list is empty, or (b) by a return in the branch that received a non-nil interrupt; on (b) the cancel function must have been called (so the remaining cores stop), and on every return the core-list mutex must be released (a Wait that returns holding the RLock makes the next spawnCore — which needs Lock — block forever: the VM answers later calls by hanging). Registrations (rules_r4rta_spawn.go): every store that adds a new element to the list Wait polls (decided by data flow on go/ssa: filters and clears only contain elements of the list itself) must be followed, on every non-panicking path, by the start of exactly one goroutine that runs the sender — in the registering function or, for wrappers that only register, in every caller (followed upwards 3 levels). A core that is in the list but was never started never signals: Wait polls it forever."})
 }
 
 type wtAnchors struct {
@@ -334,6 +334,8 @@ func ruleChanSend(c *Ctx) []Obligation {
 			obs = append(obs, ob)
 		})
 	}
+	// (3) the goroutines that run the sender (rules_r4rta_spawn.go)
+	obs = append(obs, r4aGoSenders(c)...)
 	return obs
 }
 
@@ -477,6 +479,15 @@ func (sc *wtSendCounter) walker(info *types.Info) *Walker[[2]int] {
 		OnStmt: func(n [2]int, s ast.Stmt) ([2]int, bool) {
 			if sc.isSend(info, s) {
 				n = add(n, [2]int{1, 1})
+			}
+			if gs, ok := s.(*ast.GoStmt); ok {
+				// `go f(args)`: what f sends is sent by the new goroutine, not on this
+				// path (it has its own obligation, see r4aGoSenders); only the argument
+				// expressions are evaluated here
+				for _, a := range gs.Call.Args {
+					n = add(n, sc.callSends(info, a))
+				}
+				return n, true
 			}
 			return add(n, sc.callSends(info, s)), true
 		},
@@ -1113,5 +1124,7 @@ func ruleWait(c *Ctx) []Obligation {
 			obs = append(obs, ob2)
 		}
 	}
+	// every registration in the polled list is paired with a started sender (rules_r4rta_spawn.go)
+	obs = append(obs, r4aRegistrations(c)...)
 	return obs
 }
